@@ -371,7 +371,8 @@ class Report:
         c["accepted" if ok else "rejected"] += 1
 
     def finish(self):
-        os.makedirs(os.path.join(VERIF, "evidence"), exist_ok=True)
+        evdir = os.environ.get("VERIF_EVIDENCE_DIR", os.path.join(VERIF, "evidence"))   # (seed tests write elsewhere)
+        os.makedirs(evdir, exist_ok=True)
         os.makedirs(os.path.join(OUT, "replays"), exist_ok=True)
         rc = 0
         for key, (f, n, what) in sorted(self.known_hit.items()):
@@ -398,7 +399,7 @@ class Report:
               "violations": len(grouped)}
         if self.notes:
             ev["coverage"]["notes"] = self.notes
-        with open(os.path.join(VERIF, "evidence", f"{self.pid}.json"), "w") as fh:
+        with open(os.path.join(evdir, f"{self.pid}.json"), "w") as fh:
             json.dump(ev, fh, indent=1, default=str)
         print(f"{self.pid} [{self.tier}] states={cov['states']} transitions={cov['transitions']} "
               f"traces={cov['traces_validated_against_impl']} violations={len(grouped)} "
